@@ -783,3 +783,144 @@ Proof.
   intros Hp dt. apply kwn_run_reorder; auto.
   intros l l' H. apply getDt_perm, H.
 Qed.
+
+(* ====================================================================================== *)
+(* Part D - diffusion profiles and per-phase inputs of the growth law                      *)
+Section ProfileFacts.
+Context {K Step Row : Type}.
+Variable keq : K -> K -> bool.
+Variable apply : Step -> Row -> Row.
+
+Lemma upd_row_length i f (x : list Row) : length (upd_row i f x) = length x.
+Proof. revert i; induction x as [|r x IH]; intros [|i]; simpl; auto. Qed.
+
+Lemma nth_upd_row i f (x : list Row) j dr :
+  nth j (upd_row i f x) dr = if Nat.eqb j i && Nat.ltb i (length x) then f (nth i x dr) else nth j x dr.
+Proof.
+  revert i j; induction x as [|r x IH]; intros i j; simpl.
+  - destruct j, i; simpl; try reflexivity; rewrite ?andb_false_r; reflexivity.
+  - destruct i as [|i], j as [|j]; simpl; auto.
+    rewrite IH. reflexivity.
+Qed.
+
+Lemma steps_length i steps (x : list Row) :
+  length (fold_left (fun x s => upd_row i (apply s) x) steps x) = length x.
+Proof. revert x; induction steps as [|s r IH]; intros x; simpl; auto. rewrite IH. apply upd_row_length. Qed.
+
+Lemma nth_steps i steps (x : list Row) j dr : i < length x ->
+  nth j (fold_left (fun x s => upd_row i (apply s) x) steps x) dr =
+  if Nat.eqb j i then fold_left (fun r s => apply s r) steps (nth i x dr) else nth j x dr.
+Proof.
+  revert x; induction steps as [|s r IH]; intros x Hi; simpl.
+  - destruct (Nat.eqb j i) eqn:E; auto. apply Nat.eqb_eq in E. now subst.
+  - rewrite IH by (now rewrite upd_row_length).
+    rewrite !nth_upd_row. rewrite Nat.eqb_refl.
+    assert (Hl : Nat.ltb i (length x) = true) by (now apply Nat.ltb_lt).
+    rewrite Hl. simpl. destruct (Nat.eqb j i); reflexivity.
+Qed.
+
+Lemma build_at_length els d (x : list Row) i : length (build_at keq apply els d x i) = length x.
+Proof.
+  unfold build_at. destruct (nth_error els i); auto. destruct (lookup keq k d); auto. apply steps_length.
+Qed.
+
+Lemma nth_build_at els d (x : list Row) i j dr de : i < length x -> i < length els ->
+  nth j (build_at keq apply els d x i) dr =
+  if Nat.eqb j i then row_of keq apply d (nth i els de) (nth i x dr) else nth j x dr.
+Proof.
+  intros Hx He. unfold build_at, row_of.
+  rewrite (nth_error_nth' els de He).
+  destruct (lookup keq (nth i els de) d).
+  - now apply nth_steps.
+  - destruct (Nat.eqb j i) eqn:E; auto. apply Nat.eqb_eq in E. now subst.
+Qed.
+
+Lemma nth_fold_build els d dr de (idxs : list nat) : forall (x : list Row) j,
+  NoDup idxs -> Forall (fun i => i < length els) idxs -> length x = length els ->
+  nth j (fold_left (build_at keq apply els d) idxs x) dr =
+  if existsb (Nat.eqb j) idxs then row_of keq apply d (nth j els de) (nth j x dr) else nth j x dr.
+Proof.
+  induction idxs as [|i r IH]; intros x j Hn Hf Hl; simpl; auto.
+  inversion Hn as [|? ? Hi Hr]; subst. inversion Hf as [|? ? Hb Hfr]; subst.
+  rewrite IH; auto; [|now rewrite build_at_length].
+  rewrite (nth_build_at els d x i j dr de) by lia.
+  destruct (Nat.eqb j i) eqn:E; simpl.
+  - apply Nat.eqb_eq in E. subst j.
+    replace (existsb (Nat.eqb i) r) with false; auto.
+    symmetry. apply not_true_is_false. intros H. apply existsb_exists in H.
+    destruct H as [k [Hk Ek]]. apply Nat.eqb_eq in Ek. subst. contradiction.
+  - reflexivity.
+Qed.
+
+(* buildProfile fills row i with the steps registered for the i-th element of the model's list *)
+Lemma buildProfile_spec els d (x : list Row) : length x = length els ->
+  buildProfile keq apply els d x = map (fun er => row_of keq apply d (fst er) (snd er)) (combine els x).
+Proof.
+  intros Hl. destruct els as [|e0 els'].
+  - destruct x; [reflexivity | discriminate].
+  - destruct x as [|r0 x']; [discriminate|]. set (els := e0 :: els') in *. set (x := r0 :: x') in *.
+    apply (nth_ext _ _ r0 (row_of keq apply d e0 r0)).
+    + unfold buildProfile. rewrite map_length, combine_length.
+      assert (H : forall idxs y, length (fold_left (build_at keq apply els d) idxs y) = length y).
+      { induction idxs; intros; simpl; auto. rewrite IHidxs. apply build_at_length. }
+      rewrite H. lia.
+    + intros j Hj.
+      assert (Hlen : forall idxs y, length (fold_left (build_at keq apply els d) idxs y) = length y).
+      { induction idxs; intros; simpl; auto. rewrite IHidxs. apply build_at_length. }
+      unfold buildProfile in *. rewrite Hlen in Hj.
+      rewrite (nth_fold_build els d r0 e0); auto; [|apply seq_NoDup|].
+      * replace (existsb (Nat.eqb j) (seq 0 (length els))) with true.
+        -- change (row_of keq apply d e0 r0) with (row_of keq apply d (fst (e0, r0)) (snd (e0, r0))).
+           rewrite (map_nth (fun er : K * Row => row_of keq apply d (fst er) (snd er)) (combine els x) (e0, r0) j).
+           rewrite combine_nth by auto. reflexivity.
+        -- symmetry. apply existsb_exists. exists j. split; [apply in_seq; lia | apply Nat.eqb_refl].
+      * apply Forall_forall. intros i Hi. apply in_seq in Hi. lia.
+Qed.
+
+Lemma buildProfile_zero els d (z : Row) :
+  buildProfile keq apply els d (repeat z (length els)) = map (fun e => row_of keq apply d e z) els.
+Proof.
+  rewrite buildProfile_spec by apply repeat_length.
+  induction els as [|e r IH]; simpl; auto. now rewrite IH.
+Qed.
+
+(* listing the model's elements in another order permutes the rows accordingly, nothing else *)
+Lemma buildProfile_equivariant els d (z dr : Row) (de : K) idx :
+  Forall (fun i => i < length els) idx ->
+  buildProfile keq apply (reorder de els idx) d (repeat z (length idx)) =
+  reorder dr (buildProfile keq apply els d (repeat z (length els))) idx.
+Proof.
+  intros Hb. rewrite <- (reorder_length de els idx) at 1. rewrite !buildProfile_zero.
+  symmetry. now apply (reorder_map (fun e => row_of keq apply d e z) de dr).
+Qed.
+End ProfileFacts.
+
+Section GrowthInputFacts.
+Context {P A B C : Type}.
+Variables (gname : P -> nat) (gbounds : P -> A) (gibbs : P -> A -> B) (gbeta : P -> C).
+
+Lemma phaseIndex_nth (names : list nat) p dn : NoDup names -> p < length names ->
+  phaseIndex names (nth p names dn) = p.
+Proof.
+  revert p; induction names as [|y r IH]; intros p Hn Hp; simpl in *; [lia|].
+  inversion Hn as [|? ? Hy Hr]; subst. destruct p as [|p].
+  - now rewrite Nat.eqb_refl.
+  - destruct (Nat.eqb y (nth p r dn)) eqn:E.
+    + apply Nat.eqb_eq in E. exfalso. apply Hy. rewrite E. apply nth_In. lia.
+    + f_equal. apply IH; auto. lia.
+Qed.
+
+(* addressing a phase by its own name gives that phase's Gibbs-Thomson energies on its own size classes *)
+Lemma particleGibbs_by_name (ps : list P) d p : NoDup (map gname ps) -> p < length ps ->
+  particleGibbs gname gbounds gibbs ps d None (Some (gname (nth p ps d))) = gibbs (nth p ps d) (gbounds (nth p ps d)).
+Proof.
+  intros Hn Hp. unfold particleGibbs, phaseIdx.
+  rewrite <- (map_nth gname ps d p).
+  rewrite phaseIndex_nth; auto. now rewrite map_length.
+Qed.
+
+Lemma growth_inputs_reorder (ps : list P) d idx i : i < length idx ->
+  growth_inputs gname gbounds gibbs gbeta (reorder d ps idx) d i =
+  growth_inputs gname gbounds gibbs gbeta ps d (nth i idx 0).
+Proof. intros Hi. unfold growth_inputs. now rewrite nth_reorder. Qed.
+End GrowthInputFacts.
